@@ -239,6 +239,7 @@ def pool(F, R):
 
 
 def check(F, R, tier):
+    lib.cas_loops_fresh(R, F, r'^iceoryx2_bb_lock_free::mpmc::(robust_)?unique_index_set::', 7, 'a decision computed once before the loop is stale after the first failed CAS')
     unique_index_set(F, R)
     robust(F, R)
     pool(F, R)
